@@ -25,21 +25,26 @@ RECURSIVE Tainted(_)
 Tainted(p) == IsTarget(p) /\ LET r == Producer(p) IN r.mask # <<>> \/ \E j \in DOMAIN r.src : Tainted(r.src[j])
 EnvFreeScope == \A k \in ScopeI : rules[k].mask = <<>>
 
+\* a rule with a target in a directory the user has removed cannot succeed: the restore from the cache fails (a cache
+\* malfunction is reported, no command runs), or the command runs and cannot write
+NoDirRule(r) == SeqSet(r.tg) \cap rdir.nodir # {}
+
 \* from-scratch evaluation of the current rules on the current leaves
 RECURSIVE Scratch(_)
 Scratch(p) ==
   IF ~IsTarget(p) THEN (IF Has(ws, p) THEN ws[p].c ELSE "MISSING")
   ELSE LET r == Producer(p)  sc == [j \in DOMAIN r.src |-> Scratch(r.src[j])] IN
-       IF r.kind = "fail" \/ r.pf \/ r.omit # 0 \/ \E j \in DOMAIN sc : sc[j] \in {"MISSING", "FAILS"} THEN "FAILS"
+       IF r.kind = "fail" \/ r.pf \/ r.omit # 0 \/ NoDirRule(r) \/ \E j \in DOMAIN sc : sc[j] \in {"MISSING", "FAILS"} THEN "FAILS"
        ELSE Out(r, SubIdx(p), sc, env)
 
 \* which nodes can be produced in this build, declaratively (leaves are looked up in the pre-state)
 RECURSIVE Fine(_)
 Fine(p) == IF ~IsTarget(p) THEN Has(Pre.ws, p)
-           ELSE LET r == Producer(p) IN r.kind # "fail" /\ ~r.pf /\ r.omit = 0 /\ \A j \in DOMAIN r.src : Fine(r.src[j])
+           ELSE LET r == Producer(p) IN r.kind # "fail" /\ ~r.pf /\ r.omit = 0 /\ ~NoDirRule(r) /\ \A j \in DOMAIN r.src : Fine(r.src[j])
 Reached(r) == \A j \in DOMAIN r.src : Fine(r.src[j])
-Fails(r) == Reached(r) /\ (r.kind = "fail" \/ r.pf \/ r.omit # 0)
-ErrOf(r) == IF r.kind = "fail" \/ r.pf THEN <<"CommandExecutedButErrored", "", "">>
+Fails(r) == Reached(r) /\ (r.kind = "fail" \/ r.pf \/ r.omit # 0 \/ NoDirRule(r))
+ErrOf(r) == IF NoDirRule(r) /\ RuleId(r) \notin {x.rid : x \in g.execs} THEN <<"ResolutionError", "CacheMalfunction", "">>
+            ELSE IF r.kind = "fail" \/ r.pf \/ NoDirRule(r) THEN <<"CommandExecutedButErrored", "", "">>
             ELSE <<"TargetFileNotGenerated", r.tg[r.omit], RuleId(r)>>
 MissingLeaves == ScopeLeaves(g.goal) \ DOMAIN Pre.ws
 ExpErrSet == {<<"FileNotFound", p, "">> : p \in MissingLeaves} \cup {ErrOf(rules[k]) : k \in {k \in ScopeI : Fails(rules[k])}}
@@ -115,7 +120,7 @@ C04_NothingRemembered ==
                   \/ (Has(Pre.hist, rid) /\ Has(Pre.hist[rid], sh) /\ Pre.hist[rid][sh] = hist[rid][sh])
                   \/ \E x \in g.execs : x.rid = rid /\ x.ok /\ SrcHash(x.seen) = sh /\ x.outs = hist[rid][sh]
 C04_TriedAgain ==
-  (Graded /\ EnvFreeScope) => \A k \in ScopeI : Fails(rules[k]) => RuleId(rules[k]) \in ExecRids
+  (Graded /\ EnvFreeScope) => \A k \in ScopeI : (Fails(rules[k]) /\ ~NoDirRule(rules[k])) => RuleId(rules[k]) \in ExecRids
 
 (* ---------------- C05 ------------------------------------------------------ *)
 C05_Returns == ev.a = "ret" => ev.verdict \notin {"panic", "deadlock", "hang", "err:Weird"}
@@ -124,8 +129,10 @@ C05_NoDeadlock == mode # "idle" => (MainEnabled \/ \E t \in DOMAIN tl : EnabledT
 
 (* ---------------- C06 ------------------------------------------------------ *)
 WsContents == [p \in DOMAIN ws |-> ws[p].c]
+\* (not judged while a workspace directory is removed: no history the property quantifies over removes one, and a rule that
+\* cannot write its target then fails or not depending on who gets the one cache file both need)
 C06_SameAsSerial ==
-  (AtRet("build") /\ g.expect # <<>>) =>
+  (AtRet("build") /\ g.expect # <<>> /\ rdir.nodir = {}) =>
      /\ g.expect.verdict = ev.verdict
      /\ \A e \in SeqSet(ev.errs) \cup SeqSet(g.expect.errs) : CountIn(ev.errs, e) = CountIn(g.expect.errs, e)
      /\ SameFn(g.expect.ws, WsContents)
@@ -153,13 +160,24 @@ C08_NothingLost ==
 C09_OnlyScopeTouched ==
   ev.a = "ret" => \A p \in ((DOMAIN ws) \cup (DOMAIN Pre.ws)) \ Scope : Has(ws, p) /\ Has(Pre.ws, p) /\ ws[p] = Pre.ws[p]
 
+\* ruler makes no directory in the workspace (a removed directory stays removed until the user makes it again)
+C09_NoDirMade == ev.a = "ret" => rdir.nodir = Pre.nodir
+
 (* ---------------- C10 ------------------------------------------------------ *)
+\* one cache file carries one permission: a file that shares its entry (an equal file cleaned with it, or an entry that was
+\* already there) may come back with the other file's permission; the permission is judged where the entry is the file's alone
+AloneAtClean(p) == /\ ~Has(Pre.cache, Pre.ws[p].c)
+                   /\ \A q \in (AllTargets \cap DOMAIN Pre.ws) \ {p} : Pre.ws[q].c # Pre.ws[p].c
 C10_CleanMovesToCache ==
   (AtRet("clean") /\ ev.verdict = "cleaned") =>
      \A p \in Scope : /\ ~Has(ws, p)
-                      /\ Has(Pre.ws, p) => \E n \in DOMAIN cache : cache[n].c = Pre.ws[p].c /\ (Distinct => n = Pre.ws[p].c)   \* and, the cache being content-addressed, under its own name
+                      /\ Has(Pre.ws, p) => \E n \in DOMAIN cache : /\ cache[n].c = Pre.ws[p].c /\ (Distinct => n = Pre.ws[p].c)   \* and, the cache being content-addressed, under its own name
+                                                                    /\ AloneAtClean(p) => cache[n].x = Pre.ws[p].x
+\* a target comes back with the permission its cache entry carries (a target still in place keeps its own)
+RestoredPerm == \A p \in Scope : LET c == g.utd0[p].c IN
+                   IF HoldsPre(p, c) THEN ws[p].x = Pre.ws[p].x ELSE CacheHas(c) => ws[p].x = Pre.cache[c].x
 C10_BuildBringsBack ==
-  (AtRet("build") /\ UtdScope /\ ~InPlace) => RestoredContent /\ (PairwiseDifferent => (RestoredAsBefore /\ g.execs = {}))
+  (AtRet("build") /\ UtdScope /\ ~InPlace) => RestoredContent /\ (PairwiseDifferent => (RestoredPerm /\ g.execs = {}))
 
 (* ---------------- C11 ------------------------------------------------------ *)
 C11_CrashStateSane == ev.a = "crash" => rdir.tab # "torn" /\ rdir.htorn = {}
@@ -224,5 +242,12 @@ C20_StatusTruth ==
                /\ (StatusFor(p) = "Recovered") = (~ran /\ p \in g.takes)
                /\ (StatusFor(p) = "Up-to-date") = (~ran /\ p \notin g.takes /\ p \notin g.baks)
           ELSE Lines(p) = 0
+     /\ \A j \in DOMAIN ev.stat : ev.stat[j][1] \in AllTargets
+\* what can be judged of the status lines when takes and back-ups are not observed (the real binary on the real file system)
+C20_StatusReal ==
+  (Graded /\ EnvFreeScope /\ ~Has(ev, "nostat")) =>
+     /\ \A k \in DOMAIN rules : \A i \in DOMAIN rules[k].tg :
+          LET p == rules[k].tg[i]  ran == RuleId(rules[k]) \in ExecRids IN
+          IF OkRule(k) THEN Lines(p) = 1 /\ (StatusFor(p) = "Built") = ran ELSE Lines(p) = 0
      /\ \A j \in DOMAIN ev.stat : ev.stat[j][1] \in AllTargets
 =============================================================================
